@@ -73,8 +73,8 @@ LineZZ(r) ==
     [] r.op = "zzRedCrandMont" -> IsN(r.c, zzRedCrandMont(N(r.a), N(r.mod), r.W, r.n))
     [] r.op = "zzPowerMod" -> IsN(r.c, zzPowerMod(N(r.a), N(r.b), N(r.mod)))
     [] r.op = "zzPowerModW" -> IsN(r.ret, zzPowerModW(N(r.a), N(r.b), N(r.mod)))
-    [] r.op = "zzRandMod" -> zzRandModOk(r.ret, N(r.c), N(r.mod), FALSE, r.tape)
-    [] r.op = "zzRandNZMod" -> zzRandModOk(r.ret, N(r.c), N(r.mod), TRUE, r.tape)
+    [] r.op = "zzRandMod" -> zzRandModOk(r.ret, N(r.c), N(r.mod), FALSE, r.tape) /\ zzRandUsedOk(r.used, N(r.mod))
+    [] r.op = "zzRandNZMod" -> zzRandModOk(r.ret, N(r.c), N(r.mod), TRUE, r.tape) /\ zzRandUsedOk(r.used, N(r.mod))
     [] OTHER -> FALSE
 
 LineWW(r) ==
